@@ -20,7 +20,8 @@ TRUSTED_BASE = [
 ASSUMPTIONS = ["container nesting of generated values <= max_recursion_depth"]
 TECHNIQUE = "Coq proof by mutual structural induction over well-typed expressions that the evaluator model equals the RFC filter semantics; differential runs of find()"
 LEVEL_TEXT = ("Theorem C02_filter: for every registry, well-typed filter expression, root and node, the model of FilterSelector.resolve selects exactly the children "
-              "for which the RFC logical value is true ('@' = the child, '$' = the query argument at any depth); tied to the code by differential testing.")
+              "for which the RFC logical value is true ('@' = the child, '$' = the query argument at any depth); C02_find_compiled: for every text that compiles, find() returns the RFC nodelist of the compiled query "
+              "(compile() only returns well-typed queries, C05_sound); tied to the code by differential testing.")
 LEVEL_NOTE = "Trusted: Coq kernel; Spec/Sem.v as a reading of the RFC; correspondence harness; regex oracle; extraction and driver."
 norm_reply = harness.norm_reply
 
